@@ -68,12 +68,16 @@ func NewBlockingStrategy() *BlockingStrategy {
 // blockingTimeout > 0: block up to the timeout, then drop so a slow consumer
 // cannot hang the producer — bounded block is the explicit contract.
 func (bs *BlockingStrategy) ProcessData(data map[string]any) {
+	// A row that arrives at or after Stop, or whose Emit is still blocked when Stop is called, will
+	// never be processed: it is counted as dropped, so that processed + dropped accounts for every Emit.
 	if atomic.LoadInt32(&bs.stream.stopped) == 1 {
+		bs.stream.mInputDropped.Inc()
 		return
 	}
 
 	dataChan := bs.stream.safeGetDataChan()
 	if dataChan == nil {
+		bs.stream.mInputDropped.Inc()
 		return
 	}
 
@@ -81,6 +85,7 @@ func (bs *BlockingStrategy) ProcessData(data map[string]any) {
 		select {
 		case dataChan <- data:
 		case <-bs.stream.done:
+			bs.stream.mInputDropped.Inc()
 		}
 		return
 	}
@@ -93,6 +98,7 @@ func (bs *BlockingStrategy) ProcessData(data map[string]any) {
 		bs.stream.log.Warn("Data channel still full after %s, dropping input data", bs.stream.blockingTimeout)
 		bs.stream.mInputDropped.Inc()
 	case <-bs.stream.done:
+		bs.stream.mInputDropped.Inc()
 	}
 }
 
@@ -128,6 +134,7 @@ func NewExpansionStrategy() *ExpansionStrategy {
 // a reference can be swapped out and strand the send (and hang the caller).
 func (es *ExpansionStrategy) ProcessData(data map[string]any) {
 	if atomic.LoadInt32(&es.stream.stopped) == 1 {
+		es.stream.mInputDropped.Inc() // after Stop: never processed, counted
 		return
 	}
 	if es.stream.safeSendToDataChan(data) {
@@ -148,6 +155,7 @@ func (es *ExpansionStrategy) ProcessData(data map[string]any) {
 		case <-timer.C:
 		case <-es.stream.done:
 			timer.Stop()
+			es.stream.mInputDropped.Inc() // Stop during the retry: never processed, counted
 			return
 		}
 		if es.stream.safeSendToDataChan(data) {
@@ -194,6 +202,7 @@ func (ds *DropStrategy) ProcessData(data map[string]any) {
 
 	dataChan := ds.stream.safeGetDataChan()
 	if dataChan == nil {
+		ds.stream.mInputDropped.Inc() // after Stop: never processed, counted
 		return
 	}
 
@@ -207,6 +216,7 @@ func (ds *DropStrategy) ProcessData(data map[string]any) {
 		case <-timer.C:
 		case <-ds.stream.done:
 			timer.Stop()
+			ds.stream.mInputDropped.Inc() // Stop during the retry: never processed, counted
 			return
 		}
 	}
